@@ -10,8 +10,29 @@ _WITNESS = {  # a => b, crash at iteration 1 before any statement: 1/a/01 and 2/
     "customs": {}, "opt": [["a", "succeeded", False], ["b", "succeeded", False]], "runahead": 1, "queues": {},
     "seed": 5, "fail_rate": 0, "custom_rate": 1.0, "disorder": 0,
     "ops": [{"tick": 1, "cmd": "crash", "stmts": 0}], "baseline": True}
+
+
+def _sweep():
+    """the same small workflow killed after every number k of database statements of two busy main-loop iterations
+    (a database flush that is not all-or-nothing shows at some k)"""
+    out = []
+    for tick, ks in ((3, range(1, 16)), (5, range(1, 16, 2))):
+        for k in ks:
+            out.append({
+                "icp": 1, "fcp": 2, "tasks": ["a", "b", "c"],
+                "sections": [{"rec": "P1", "lines": [
+                    {"lhs": None, "rhs": "a"}, {"lhs": None, "rhs": "b"}, {"lhs": None, "rhs": "c"},
+                    {"lhs": {"task": "a", "off": 0, "out": "succeeded"}, "rhs": "b"},
+                    {"lhs": {"task": "b", "off": 0, "out": "succeeded"}, "rhs": "c"}]}],
+                "customs": {}, "opt": [["a", "succeeded", False], ["b", "succeeded", False], ["c", "succeeded", False]],
+                "runahead": 1, "queues": {}, "seed": 11, "fail_rate": 0, "custom_rate": 1.0, "disorder": 0,
+                "ops": [{"tick": tick, "cmd": "crash", "stmts": k}], "baseline": True})
+    return out
+
+
 STREAMS = [SchedStream("C20", name="sched-crash", feat={"crash": True, "abs": True}, n_quick=28, n_thorough=800,
-                       corpus=[_WITNESS])]
+                       corpus=[_WITNESS]),
+           SchedStream("C20", name="sched-crash-sweep", feat={"crash": True}, n_quick=0, n_thorough=0, corpus=_sweep())]
 META = {
     "level_text": ("Coq theorems over the pool automaton with crash events (ECrash; ERestore*; EAdopt; ERestartDone): whatever the "
                    "database gives back is accepted only if consistent with the run (graph instance, satisfied prerequisites and outputs "
